@@ -34,6 +34,7 @@ def check(tier, replay):
         "C19", tier, replay, rep=rep, spec="Tools.tla", mods="ops_tools", trace=("Trace_Tools.tla", "Trace_Tools.cfg"),
         mc=[("Gen_Tools.tla", "MC_Tools.cfg")],
         gens=[("hdiff: A against itself; every single-point mutation (30 targets: first/middle/last element of datasets of every number type, chunked, compressed, unlimited, 1.2 MB; Vdata records incl. NO_INTERLACE; pixels and components of images; a dataset attribute; a global attribute; an added dataset) compared in both orders under every option (none, -d, -D, -g, -s)", "Gen_Tools.tla", "Gen_Tools_hdiff.cfg", "cover", {"sample": 1200}),
+              ("hdiff on a file with a 3.6 MB dataset and a 1.5 MB Vdata: mutations at the first / middle / last element of the large dataset and of small objects", "Gen_Tools.tla", "Gen_Tools_hdiffbig.cfg", "cover", {"sample": 40}),
               ("hdp dumpsds/dumpgr -d of the roster objects against the API", "Gen_Tools.tla", "Gen_Tools_dump.cfg", "cover", {}),
               ("hdp dumpsds -d of datasets of every number type, dumpvd -d of Vdatas, against the API", "Gen_Tools.tla", "Gen_Tools_dumpmixed.cfg", "cover", {}),
               ("hdp dumpvd -d of a 1.5 MB Vdata (150001 records), dumpsds -d of a 3.6 MB dataset", "Gen_Tools.tla", "Gen_Tools_dumpbig.cfg", "cover", {}),
